@@ -7,3 +7,5 @@ import Spade.Properties.C16
 #print axioms Spade.C16_bbox_sound
 #print axioms Spade.C16_disk_endpoint
 #print axioms Spade.C16_disk_mono
+#print axioms Spade.C16_rect_metric_is_spec
+#print axioms Spade.C16_rect_metric_no_miss
